@@ -613,7 +613,21 @@ func (c *Conn) ExecRollbackTx(tx Tx) (res TxResult, err error) {
 		}
 	}
 
-	finalise := func() error {
+	// commitModel runs at the instant the finalising operation of a COMMIT has
+	// returned success: from then on SQLite (and its application) regards the
+	// transaction as committed.
+	commitModel := func(commit bool) {
+		if !commit {
+			return
+		}
+		res.Committed = true
+		c.CommitReturned = true
+		db.Img = newImg
+		db.Change++
+		db.Mode = hdrMode
+		res.Image = newImg
+	}
+	finalise := func(commit bool) error {
 		switch c.JournalMode {
 		case Delete:
 			c.op("close journal")
@@ -623,16 +637,19 @@ func (c *Conn) ExecRollbackTx(tx Tx) (res TxResult, err error) {
 			if e := c.M.Remove(c.journalName()); e != nil {
 				return opErr("unlink journal", e)
 			}
+			commitModel(commit)
 		case Truncate:
 			c.op("truncate journal 0")
 			if e := jf.Truncate(0); e != nil {
 				return opErr("truncate journal", e)
 			}
+			commitModel(commit)
 		case Persist:
 			c.op("zero journal header")
 			if e := jf.WriteAt(make([]byte, 28), 0); e != nil {
 				return opErr("zero journal header", e)
 			}
+			commitModel(commit)
 			if !noSync {
 				c.op("fsync journal")
 				if e := jf.Sync(); e != nil {
@@ -680,7 +697,7 @@ func (c *Conn) ExecRollbackTx(tx Tx) (res TxResult, err error) {
 				}
 			}
 		}
-		if err = finalise(); err != nil {
+		if err = finalise(false); err != nil {
 			return res, err
 		}
 		if busyAbort {
@@ -709,16 +726,9 @@ func (c *Conn) ExecRollbackTx(tx Tx) (res TxResult, err error) {
 			return res, opErr("fsync db", e)
 		}
 	}
-	if err = finalise(); err != nil {
+	if err = finalise(true); err != nil {
 		return res, err
 	}
-	// The transaction is committed from SQLite's point of view.
-	res.Committed = true
-	c.CommitReturned = true
-	db.Img = newImg
-	db.Change++
-	db.Mode = hdrMode
-	res.Image = newImg
 	if newImg.N() < origSize {
 		c.op("truncate db %d pages", newImg.N())
 		if e := c.dbf.Truncate(int64(newImg.N()) * ps); e != nil {
